@@ -318,10 +318,10 @@ def run(rep, tier, seed, deep=False):
                 rep.count(fn + (":err" if impl.startswith("err") else ":ok"))
                 if model != "ok " + hx(s):
                     rep.nontrivial(fn, s)
-                if model != impl and len(rep.violations) < maxviol:
+                if model != impl:
                     classify(rep, fn, (s,), model, impl)
             bad = oracle_one(s)
-            if bad and len(rep.violations) < maxviol:
+            if bad:
                 rep.violation({"function": "laws", "args": [s], "failed_laws": bad},
                               "law %s fails on the real code at %r: %s" % (bad[0][0], s, bad[0][1]),
                               found_input=True, signature="C12/law/%s" % bad[0][0])
@@ -346,10 +346,10 @@ def run(rep, tier, seed, deep=False):
                 rep.evaluations += 1
                 rep.count(fn + (":err" if impl.startswith("err") else ":ok"))
                 rep.nontrivial(fn, a, b)
-                if model != impl and len(rep.violations) < maxviol:
+                if model != impl:
                     classify(rep, fn, (a, b), model, impl)
             bad = oracle_two(a, b)
-            if bad and len(rep.violations) < maxviol:
+            if bad:
                 rep.violation({"function": "laws2", "args": [a, b], "failed_laws": bad},
                               "law %s fails on the real code at %r: %s" % (bad[0][0], (a, b), bad[0][1]),
                               found_input=True, signature="C12/law/%s" % bad[0][0])
@@ -361,7 +361,7 @@ def run(rep, tier, seed, deep=False):
         impl = call_impl("joinN", l)
         rep.evaluations += 1
         rep.nontrivial("joinN", tuple(l))
-        if model != impl and len(rep.violations) < maxviol:
+        if model != impl:
             classify(rep, "joinN", (l,), model, impl)
     rep.programs += len(lists)
     rep.sample({"fn": "isbase", "args": ["/a", "/ab"], "impl": call_impl("isbase", "/a", "/ab")})
